@@ -304,6 +304,24 @@ func ops(v variant) []op {
 				}, ref: refuse})
 		}
 	}
+	// before there is a current state (the channel has not been initialised, e.g. an opening that
+	// was abandoned and restored after a restart) every update is refused - with an error
+	o = append(o, op{name: "Update(next,actor=0)/no-current-state", offered: func(w *world) bool { return !hasCur(w) && capOK(w) },
+		arg: func(w *world) *channel.State { return w.cand("next") },
+		run: func(w *world, s *channel.State) error { return w.m.Update(s, 0) }, ref: refuse})
+	o = append(o, op{name: "CheckUpdate(next)/no-current-state", offered: func(w *world) bool { return !hasCur(w) && capOK(w) },
+		arg: func(w *world) *channel.State { return w.cand("next") },
+		run: func(w *world, s *channel.State) error {
+			before := w.snapshot()
+			err := w.m.CheckUpdate(s, 0, fx.Sig(0, s), 0)
+			if w.snapshot() != before {
+				return fmt.Errorf("ORACLE: CheckUpdate changed the machine")
+			}
+			if err == nil {
+				return fmt.Errorf("ORACLE: CheckUpdate accepted an update of a channel that has no current state")
+			}
+			return fmt.Errorf("checked")
+		}, ref: refuse})
 	// a candidate that passed CheckUpdate and is CHANGED afterwards is judged again by Update (the
 	// same object: a verdict remembered per object must not outlive the object's content)
 	o = append(o, op{name: "Update(checked-then-changed)", offered: func(w *world) bool { return hasCur(w) && capOK(w) },
